@@ -96,7 +96,8 @@ class BatchSuite(Suite):
         ng = rng.choice([1, 1, 1, 2, 2, 3])
         groups = []
         for _ in range(ng):
-            wall = rng.choice([1800, 6000, 14400])
+            # also two- and three-digit hour fields (H:MM:SS with H >= 10 is what SLURM users write for long jobs)
+            wall = rng.choice([1800, 6000, 14400, 14400, 36000, 43200, 86400, 172800, 360000])
             tb = rng.random() < .45
             groups.append({"batchSize": rng.choice([0, 1, 1, 2, 2, 3, 4, 5]), "timeBased": tb, "tryAdd": rng.random() < .6,
                            "wallSec": wall, "procs": rng.choice([1, 1, 2, 4]) if (tb or rng.random() < .5) else None,
@@ -111,7 +112,7 @@ class BatchSuite(Suite):
         jobs = []
         for k in range(n):
             g = rng.randrange(ng)
-            ests = [e for e in (1, 5, 10, 10, 30, 60, 90) if e * 60 <= groups[g]["wallSec"]]
+            ests = [e for e in (1, 5, 10, 10, 30, 60, 90, 240, 600, 1440, 2880) if e * 60 <= groups[g]["wallSec"]][-6:]
             blockers = sorted(b for b in range(n) if b != k and pos[b] < pos[k] and rng.random() < p)
             jobs.append({"id": k, "group": g, "est": rng.choice(ests), "blockers": blockers,
                          "cancel": rng.random() < .5, "rc": 0 if rng.random() < .6 else rng.randint(1, 255)})
